@@ -266,4 +266,20 @@ MUTATIONS = [
      'desc': 'the edge from a fibre to its auto-inserted inline amplifier carries the nominal weight instead of the length',
      'edits': [('gnpy/core/network.py', "        network.add_edge(fiber, amp, weight=fiber.params.length)",
                 "        network.add_edge(fiber, amp, weight=0.01)")]},
+    {'id': 'c12-no-reverse-direction', 'props': ['C12'], 'tests': 'tests/test_disjunction.py',
+     'desc': 'disjointness test forgets the opposite direction of a link',
+     'edits': [('gnpy/topology/request.py', "                        all_disjoint += isdisjoint(pth1, pth) + isdisjoint(pth1_reversed, pth)",
+                "                        all_disjoint += isdisjoint(pth1, pth)")]},
+    {'id': 'c12-isdisjoint-skips-first-edge', 'props': ['C12'], 'tests': 'tests/test_disjunction.py',
+     'desc': 'isdisjoint ignores the first link of the second path',
+     'edits': [('gnpy/topology/request.py', "    edge2 = list(pairwise(pth2))\n", "    edge2 = list(pairwise(pth2))[2:]\n")]},
+    {'id': 'c12-strict-filter-relaxed', 'props': ['C12'], 'tests': 'tests/test_disjunction.py',
+     'desc': 'candidates violating a STRICT include are kept when nothing else is left',
+     'edits': [('gnpy/topology/request.py', """        else:
+            candidates[this_d.disjunction_id] = []
+
+    # step 5 select the first combination that works""", """        else:
+            pass
+
+    # step 5 select the first combination that works""")]},
 ]
